@@ -67,9 +67,14 @@ def uniqueOperationNames (d : Doc) : Prop := (opNames d).Nodup
 /-- 5.2.2.1 Lone anonymous operation -/
 def loneAnonymousOperation (d : Doc) : Prop :=
   (∃ x ∈ d.defs, ∃ k vs ds i ss, x = Def.op k none vs ds i ss) → (operations d).length ≤ 1
-/-- 5.2.3.1 Single root field (as implemented: ONE top-level selection) -/
+/-- 5.2.3.1 Single root field: "let groupedFieldSet be the result of CollectFields(subscriptionType, selectionSet,
+    variableValues); groupedFieldSet must have exactly one entry". `CollectFields` IS an algorithm in the specification
+    (6.3.2, with its `visitedFragments` set); `rootKeys` is that algorithm restricted to the response keys, without
+    evaluating type conditions and `@skip` / `@include` (no variable values at validation time; a spread that cannot
+    apply is the business of 5.5.2.3). Before proposed_fixes/C06-H6 the code counted the WRITTEN selections. -/
 def singleFieldSubscriptions (d : Doc) : Prop :=
-  ∀ n ∈ nodes d, ∀ name vars dirs sels, n = Node.operation "subscription" name vars dirs sels → sels.length = 1
+  ∀ n ∈ nodes d, ∀ name vars dirs sels, n = Node.operation "subscription" name vars dirs sels →
+    (rootKeys (sfsTable d) (sfsBound d) sels).length = 1
 /-- 5.4.2 Argument uniqueness -/
 def uniqueArgumentNames (d : Doc) : Prop :=
   (∀ n ∈ nodes d, ∀ name args dirs hs, n = Node.field name args dirs hs → (args.map (·.name)).Nodup) ∧
